@@ -419,4 +419,50 @@ func runC01(c *core.Ctx) {
 		}
 		c.Check(okAll && argOK, "node/basicnode."+nt.Obj().Name()+"#Finish-writeback", p.Pos(fn.Pos()), "Finish writes the child node back into the parent", "a child container assembler can finish successfully without assigning its node to the parent's value assembler (the nested map/list is silently lost)", wpath...)
 	}
+
+	c.Rule("C01.beginfresh", "BeginMap / BeginList of basicnode's container assemblers store freshly made storage (make) into every storage field of the node under construction on every path to a return, whatever the size hint: a node never starts out on storage left over from (or shared with) an earlier node", 2)
+	for _, spec := range []struct {
+		typ, method string
+		fields      []string
+	}{{"plainMap__Assembler", "BeginMap", []string{"plainMap.t", "plainMap.m"}}, {"plainList__Assembler", "BeginList", []string{"plainList.x"}}} {
+		t := p.NamedType("node/basicnode", spec.typ)
+		if t == nil {
+			c.Undecided("node/basicnode."+spec.typ, "-", "type not found")
+			continue
+		}
+		fn := p.Method(types.NewPointer(t), spec.method)
+		if fn == nil || len(fn.Blocks) == 0 {
+			c.Undecided("node/basicnode."+spec.typ+"."+spec.method, "-", "method not found")
+			continue
+		}
+		for _, f := range spec.fields {
+			isFreshStore := func(in ssa.Instruction) bool {
+				st, ok := in.(*ssa.Store)
+				if !ok {
+					return false
+				}
+				fa, ok := st.Addr.(*ssa.FieldAddr)
+				if !ok || core.FieldName(fa) != f {
+					return false
+				}
+				switch st.Val.(type) {
+				case *ssa.MakeSlice, *ssa.MakeMap:
+					return true
+				}
+				return false
+			}
+			isRet := func(in ssa.Instruction) bool {
+				r, ok := in.(*ssa.Return)
+				return ok && core.ResultNilness(r, 1) != core.NonNil
+			}
+			path, reached := core.Reach(fn, nil, isRet, nil, isFreshStore)
+			c.Check(!reached, fmt.Sprintf("node/basicnode.%s.%s#fresh-%s", spec.typ, spec.method, f), p.Pos(fn.Pos()), "fresh storage on every path", "a successful "+spec.method+" can return without having stored freshly made storage into "+f+": the new node may reuse storage of a node built earlier", p.Witness(path)...)
+		}
+	}
+
+	c.Rule("C01.builderfresh", resetText, 10)
+	checkReset(c)
+
+	c.Rule("C01.freshslot", freshSlotText, 6)
+	checkFreshSlot(c)
 }
